@@ -51,6 +51,9 @@ def sweep(ctx, n):
             m = rng.choice([1, 2, 3])
             pos = nps.uniform(-3, 3, (m, 3))
             ori = R.random(m, rng=nps)
+            if cls == "Cuboid" and m > 1 and rng.random() < 0.5:
+                pos[1:] = pos[0]  # rotating in place: same position, different orientation at every path index
+                kinds["rotating-in-place"] = kinds.get("rotating-in-place", 0) + 1
             if cls == "Cuboid":
                 kw = dict(dimension=nps.uniform(0.5, 2, 3), polarization=(0, 0, 1))
                 obj = magpy.magnet.Cuboid(**kw)
